@@ -1,6 +1,9 @@
 package ch
 
-import "context"
+import (
+	"context"
+	"sync"
+)
 
 type (
 	ctxQueryKey  struct{}
@@ -12,16 +15,25 @@ type (
 		Rows            int
 		Bytes           int
 	}
+	// sharedQueryMetrics is queryMetrics of running query.
+	//
+	// Counters are updated from both sending and receiving goroutines.
+	sharedQueryMetrics struct {
+		mux sync.Mutex
+		queryMetrics
+	}
 )
 
 func (c *Client) metricsInc(ctx context.Context, delta queryMetrics) {
 	if !c.otel {
 		return
 	}
-	v, ok := ctx.Value(ctxQueryKey{}).(*queryMetrics)
+	v, ok := ctx.Value(ctxQueryKey{}).(*sharedQueryMetrics)
 	if !ok {
 		return
 	}
+	v.mux.Lock()
+	defer v.mux.Unlock()
 
 	v.Bytes += delta.Bytes
 	v.Rows += delta.Rows
